@@ -30,6 +30,25 @@ DUMMY = {"atoms": ["CA"], "bonds": [], "dih": ["CA", "CA", "CA", "CA"], "nterm":
 
 
 # ------------------------------------------------------------------ topology cases from the real objects
+def residue_cases(res, label):
+    """one case per dihedral of the residue: the patched topology bond graph, the real ranks, the real moved set"""
+    out = []
+    names = [a.name for a in res.atoms]
+    # the bond graph of the patched topology object (independent of the atoms' own bond lists)
+    bonds = sorted(set(tuple(sorted((n, b))) for n in names if n in res.reference.map
+                       for b in res.reference.map[n].bonds if b in names and b != n))
+    rank = {a.name: int(a.refdistance) for a in res.atoms}
+    for k, d in enumerate(res.reference.dihedrals):
+        dn = d.split()
+        if len(dn) != 4 or not all(res.has_atom(n) for n in dn):
+            continue
+        out.append({"cs": {"atoms": names, "bonds": [list(b) for b in bonds], "dih": dn, "nterm": bool(res.is_n_term),
+                           "cterm": bool(res.is_c_term), "backbone": [a.name for a in res.atoms if a.is_backbone],
+                           "label": f"{label} dihedral {k} {d}"},
+                    "realrank": rank, "realmoved": res.get_moveable_names(dn[2])})
+    return out
+
+
 def _topo_job(job):
     x, pos = job
     core.use_repo()
@@ -58,19 +77,7 @@ def _topo_job(job):
         bio.update_internal_bonds()
         bio.set_reference_distance()
         res = bio.residues[pos]
-        names = [a.name for a in res.atoms]
-        # the bond graph of the patched topology object (independent of the atoms' own bond lists)
-        bonds = sorted(set(tuple(sorted((n, b))) for n in names if n in res.reference.map
-                           for b in res.reference.map[n].bonds if b in names and b != n))
-        rank = {a.name: int(a.refdistance) for a in res.atoms}
-        for k, d in enumerate(res.reference.dihedrals):
-            dn = d.split()
-            if len(dn) != 4 or not all(res.has_atom(n) for n in dn):
-                continue
-            out.append({"cs": {"atoms": names, "bonds": [list(b) for b in bonds], "dih": dn, "nterm": bool(res.is_n_term),
-                               "cterm": bool(res.is_c_term), "backbone": [a.name for a in res.atoms if a.is_backbone],
-                               "label": f"{x} at {'NIC'[pos]} dihedral {k} {d}"},
-                        "realrank": rank, "realmoved": res.get_moveable_names(dn[2])})
+        out += residue_cases(res, f"{x} at {'NIC'[pos]}")
     except Exception as e:
         out.append({"error": f"{x} {pos}: {type(e).__name__}: {e}"[:200]})
     return out
@@ -136,11 +143,11 @@ def clash_inputs(ctx, rng):
     for rep in range(2 if ctx.quick else 8):
         for name, chains in environments(rng):
             for o in ([], ["--nodebump", "--noopt"]):
-                out.append({"what": f"env {name}#{rep}", "text": gen.pdb_text(chains), "args": ["--ff=AMBER"] + o})
+                out.append({"what": f"env {name}#{rep}", "text": gen.pdb_text(chains), "args": ["--ff=AMBER"] + o, "post": not o})
     from .. import corpus as shared
     out += shared.variants(ctx.quick, rng)
     for f, o in (("1AJJ.pdb", []), ("cterm_hid.pdb", ["--nodebump", "--noopt"]), ("1BX8.pdb", ["--noopt"]), ("5vav_cyclic_peptide.pdb", ["--nodebump"])):
-        out.append({"what": f, "text": open(os.path.join(DATA, f)).read(), "args": ["--ff=PARSE"] + o})
+        out.append({"what": f, "text": open(os.path.join(DATA, f)).read(), "args": ["--ff=PARSE"] + o, "post": True})
     if not ctx.quick:
         out.append({"what": "1K1I.pdb", "text": open(os.path.join(DATA, "1K1I.pdb")).read(), "args": ["--ff=AMBER"]})
     return out
@@ -230,6 +237,17 @@ def _run_job(job):
                         angledev = dv
                         if dv > 0.05:
                             worst = f"{rr} {x1}-{b_}-{x2}"
+        # the model after the run: what the next torsion change would move (ranks recomputed as a debump pass does)
+        res["post"] = []
+        if job.get("post"):
+            try:
+                from pdb2pqr import aa as paa
+                r["bio"].set_reference_distance()
+                for rr in r["bio"].residues:
+                    if isinstance(rr, paa.Amino) and getattr(rr.reference, "dihedrals", None):
+                        res["post"] += residue_cases(rr, f"{rr.name} {rr.chain_id}{rr.res_seq} after the run:")
+            except Exception as e:
+                res["post"] = [{"error": f"{type(e).__name__}: {e}"[:200]}]
         o = opts_record(job["args"])
         res["final"] = {"bonddev": int(round(bonddev * 1e6)), "angledev": int(round(angledev * 1e6)), "backbonemove": int(round(backbonemove * 1e6)),
                         "anymove": int(round(anymove * 1e6)), "forbidden": bool(o["clean"] or o["assignOnly"] or (not o["debump"] and not o["opt"])),
@@ -269,6 +287,7 @@ def run(ctx):
     pipes = []
     nturn = 0
     multi = 0
+    npost = 0
     for j, o in zip(jobs, rres):
         ctx.evaluations += 1
         if not o["ok"]:
@@ -298,6 +317,14 @@ def run(ctx):
             multi += 1
         if o["turns"]:
             ctx.nontrivial.add(what)
+        for pc in o.get("post", []):
+            if "error" in pc:
+                ctx.drift.append({"what": what, "post_run_cases_failed": pc["error"]})
+                continue
+            npost += 1
+            traces.append({"id": len(traces) + 1, "kind": "topology", "cs": pc["cs"], "realrank": pc["realrank"], "realmoved": pc["realmoved"],
+                           "axisdev": 0, "pairdev": 0, "axismove": 0, "bonddev": 0, "angledev": 0, "backbonemove": 0, "anymove": 0,
+                           "forbidden": False, "worst": "", "what": f"{what}: {pc['cs']['label']}"})
         f = o["final"]
         traces.append(dict({"id": len(traces) + 1, "kind": "final", "cs": DUMMY, "realrank": {}, "realmoved": [], "axisdev": 0, "pairdev": 0,
                             "axismove": 0, "what": what}, **f))
@@ -305,7 +332,7 @@ def run(ctx):
         p["id"] = len(pipes) + 1
         p["what"] = what
         pipes.append(p)
-    ctx.extra.update(topology_cases=ntopo, torsion_events=nturn, runs=len(jobs), runs_returning_to_a_changed_dihedral=multi)
+    ctx.extra.update(topology_cases=ntopo, post_run_moved_set_cases=npost, torsion_events=nturn, runs=len(jobs), runs_returning_to_a_changed_dihedral=multi)
     tf = core.write_json(os.path.join(ctx.work, "tr.json"), [dict({k: v for k, v in t.items() if k != "what"}, routine=t.get("routine", "")) for t in traces])
     cfg = os.path.join(ctx.work, "m.cfg")
     open(cfg, "w").write(f"SPECIFICATION TSpec\nCONSTANTS\n  Component = {CODE_CONSTS['Component']}\nINVARIANT Report\n")
